@@ -204,6 +204,13 @@ def register(R):
         return Implies(ok(r), resources_same(v2.vehicle_state, v1.vehicle_state))
     s.ensures("moving_holds_nothing", move_resources, ("C02",))
 
+    def move_keeps_activity(a, r):
+        # moving never changes the kind of activity (only its remaining route), except to OutOfService when empty
+        s2, v1, v2, stopped = moved_or_stopped(a, r)
+        travelling = ["Repositioning", "DispatchTrip", "ServicingTrip", "DispatchStation", "DispatchBase", "DispatchPoolingTrip", "ServicingPoolingTrip"]
+        return Implies(ok(r), Or(stopped, And(*[Implies(v1.vehicle_state.is_a(m), v2.vehicle_state.is_a(m)) for m in travelling])))
+    s.ensures("activity_kind_kept", move_keeps_activity, ("C06", "C02"))
+
     # ------------------------------------------------------------ per-state _perform_update and update
     def CURRENT(a):
         return And(a.sim.vehicles.has(a.self.vehicle_id),
